@@ -327,6 +327,25 @@ def variant_of(name):
     return "".join(cap(p) for p in re.split("[-_]", name))
 
 
+def crate_type_name(name):
+    """rust.rs rust_variant_name / rust_struct_or_enum_name: the crate mangles the name of an extracted inline type
+    (<Parent><Field>) once more, which lower-cases a letter that follows an upper-case one unless a lower-case letter
+    comes next (T1 + AB1 -> T1Ab1).  Only used to FIND the definitions and constraint types of the expansion by name."""
+    out = []
+    next_upper, prev_upper = True, False
+    for i, c in enumerate(name):
+        if c in "-_":
+            next_upper, prev_upper = True, False
+        elif next_upper and not prev_upper:
+            out.append(c.upper())
+            next_upper, prev_upper = False, True
+        else:
+            nxt = name[i + 1] if i + 1 < len(name) else ""
+            out.append(c.lower() if prev_upper and not nxt.islower() else c)
+            prev_upper = c.isupper()
+    return "".join(out)
+
+
 def tag_text(tag):
     return "M::Tag::%s(%d)" % (CLS_RUST[tag[0]], tag[1])
 
@@ -501,7 +520,7 @@ class Expect:
         k = ty[0]
         if k in ("seq", "set", "choice", "enum"):
             if not top:
-                self.definition(name, ty, tag)
+                self.definition(crate_type_name(name), ty, tag)
         elif k in ("seqof", "setof"):
             self.nested(name, ty[2], None, top)
 
@@ -788,9 +807,65 @@ def REF(n):
 GEN_EXT_ADDITION_NAMED = True
 
 
+# Sibling names that are confusable (case twins, one a prefix / suffix of the other, differing by a trailing digit or by
+# the hyphen position) yet stay pairwise distinct after the generator's mangling, as components and as items / alternatives
+# (checked with op 3410 kinds 8 and 9: mhz/m_hz/mh_z and Mhz/MHz/MhZ, ab_c/a_bc and AbC/ABc, ...).  No keyword, no `Self`,
+# no collision: a name LOOKUP that is sloppy (case-insensitive, prefix match, first hit among similar names) resolves
+# extensible_after(..) to an earlier sibling; exact lookup does not.
+CONFUSABLE = [["mhz", "mHz", "mhZ"], ["ab", "abc", "abcd"], ["x", "xx"], ["a-b1", "a-b2"], ["ab-c", "a-bc"], ["kHz", "khz"]]
+# the same families as they appear in the Rust model (field names after rust_field_name, variant names after rust_variant_name)
+CONFUSABLE_FIELDS = [["mhz", "m_hz", "mh_z"], ["mhz", "mHz", "mhZ"], ["ab", "abc", "abcd"], ["x", "xx"], ["a_b1", "a_b2"], ["ab_c", "a_bc"], ["k_hz", "khz"]]
+CONFUSABLE_VARIANTS = [["Mhz", "MHz", "MhZ"], ["Ab", "Abc", "Abcd"], ["X", "Xx"], ["AB1", "AB2"], ["AbC", "ABc"], ["KHz", "Khz"]]
+
+
+def confusable_defs(kind):
+    """every family in both orders with the marker after each position in turn (so also after the LATER twin: a wrong
+    first hit changes the index); OPTIONAL on every other component so that STD_OPTIONAL_FIELDS moves with the index"""
+    defs = []
+    k = 0
+    for fam in CONFUSABLE:
+        for names in (fam, fam[::-1]):
+            for e in range(1, len(names) + 1):
+                k += 1
+                if kind in ("seq", "set"):
+                    comps = [C(n, [INT(0, 7), BOOL, UTF8][i % 3], "opt" if i % 2 == 0 else None) for i, n in enumerate(names)]
+                    ty = [kind, comps, e]
+                elif kind == "choice":
+                    ty = CH([(n, [INT(0, 7), BOOL, NULL][i % 3]) for i, n in enumerate(names)], e)
+                else:
+                    ty = EN(list(names), e)
+                defs.append(T("%s%d" % (kind[0].upper() + kind[1:], k), ty))
+    return defs
+
+
+def has_confusable_pair(names):
+    """two sibling names of one confusable family"""
+    for fam in CONFUSABLE + CONFUSABLE_FIELDS + CONFUSABLE_VARIANTS:
+        if len([n for n in set(names) if n in fam]) >= 2:
+            return True
+    return False
+
+
+def module_has_confusable_pair(m):
+    def walk(ty):
+        k = ty[0]
+        if k in ("seq", "set"):
+            return has_confusable_pair([c[0] for c in ty[1]]) or any(walk(c[2]) for c in ty[1])
+        if k == "choice":
+            return has_confusable_pair([a[0] for a in ty[1]]) or any(walk(a[2]) for a in ty[1])
+        if k == "enum":
+            return has_confusable_pair([i[0] for i in ty[1]])
+        if k in ("seqof", "setof"):
+            return walk(ty[2])
+        return False
+    return any(walk(d[2]) for d in m["defs"])
+
+
 def templates():
     """hand-written pool: every production of the attribute language at least once"""
     P = []
+    for kind in ("seq", "set", "choice", "enum"):
+        P.append(M("Confusable" + kind.capitalize(), confusable_defs(kind)))
     # 0 integer range forms on a transparent type and as components
     forms = [(0, 255), (0, 65535), (0, 65536), (-128, 127), (-129, 127), (1, 1), (5, 5), (-5, -5), (0, 4294967295), (0, 4294967296),
              (-2147483648, 2147483647), (-2147483649, 0), (0, 9223372036854775806), (-9223372036854775807, 9223372036854775806),
@@ -971,11 +1046,25 @@ class Gen:
         r = self.rng
         return None if r.random() < 0.55 else r.randrange(1, n + 1)
 
+    def sibling_names(self, n, plain):
+        """n sibling names: now and then led by (a shuffled part of) a confusable family, the rest from `plain(i)`"""
+        r = self.rng
+        names = [plain(i) for i in range(n)]
+        if n >= 2 and r.random() < 0.3:
+            fam = list(r.choice(CONFUSABLE))
+            r.shuffle(fam)
+            fam = fam[:n]
+            pos = r.sample(range(n), len(fam))
+            for p, name in zip(pos, fam):
+                names[p] = name
+        return names
+
     def struct(self, depth):
         r = self.rng
         n = r.randrange(1, 6)
         tagged = r.random() < 0.25
         ext = self.marker(n)
+        names = self.sibling_names(n, lambda i: "f%d" % i if r.random() < 0.7 else r.choice(["ab-cd", "xy-zw-uv", "long-name"]) + str(i))
         comps = []
         for i in range(n):
             t = self.ty(depth)
@@ -986,7 +1075,7 @@ class Gen:
                     and (isinstance(opt, list) or (opt is None and not addition) or GEN_EXT_ADDITION_NAMED)):
                 # named numbers (inside the constraint) on plain, OPTIONAL, DEFAULT components and extension additions
                 t = INT(t[1], t[2], t[3], [["first", t[1]], ["last-one", t[2]]][:r.randrange(1, 3)])
-            comps.append(C("f%d" % i if r.random() < 0.7 else r.choice(["ab-cd", "xy-zw-uv", "long-name"]) + str(i), t, opt,
+            comps.append(C(names[i], t, opt,
                            self.unique_tag(i) if tagged and r.random() < 0.8 else None))
         return [r.choice(["seq", "seq", "set"]), comps, ext]
 
@@ -998,12 +1087,14 @@ class Gen:
         r = self.rng
         n = r.randrange(1, 5)
         tagged = r.random() < 0.25
-        return ["choice", [["a%d" % i if r.random() < 0.7 else "alt-%d" % i, self.unique_tag(i) if tagged else None, self.ty(depth)] for i in range(n)], self.marker(n)]
+        names = self.sibling_names(n, lambda i: "a%d" % i if r.random() < 0.7 else "alt-%d" % i)
+        return ["choice", [[names[i], self.unique_tag(i) if tagged else None, self.ty(depth)] for i in range(n)], self.marker(n)]
 
     def enum(self):
         r = self.rng
         n = r.randrange(1, 6)
-        return ["enum", [["e%d" % i if r.random() < 0.7 else "item-%d" % i, None] for i in range(n)], self.marker(n)]
+        names = self.sibling_names(n, lambda i: "e%d" % i if r.random() < 0.7 else "item-%d" % i)
+        return ["enum", [[names[i], None] for i in range(n)], self.marker(n)]
 
     def structured_below(self, ty):
         while ty[0] in ("seqof", "setof"):
@@ -1241,8 +1332,18 @@ class AttrItemGen:
         if kind == 4:
             return [0, 4] + self.tagopt() + [-1, 0]
         pool = self.FIELDS if kind in (0, 1) else self.VARIANTS
-        names = r.sample(pool, r.randrange(1, 6))
-        ext = -1 if r.random() < 0.4 else r.randrange(len(names))
+        if r.random() < 0.4:
+            # confusable siblings (distinct after mangling, no keyword), the marker after any of them -- preferably a later one
+            fam = list(r.choice(CONFUSABLE_FIELDS if kind in (0, 1) else CONFUSABLE_VARIANTS))
+            names = list(fam)
+            r.shuffle(names)
+            extra = [n for n in pool if n not in GENERATOR_KEYWORDS and n not in names]
+            for n in r.sample(extra, r.randrange(0, 3)):
+                names.insert(r.randrange(len(names) + 1), n)
+            ext = r.randrange(len(names)) if r.random() < 0.5 else max(i for i, n in enumerate(names) if n in fam)
+        else:
+            names = r.sample(pool, r.randrange(1, 6))
+            ext = -1 if r.random() < 0.4 else r.randrange(len(names))
         out = [0, kind] + self.tagopt() + [ext, len(names)]
         for n in names:
             out += e_str(n)
@@ -1444,6 +1545,30 @@ class C08(Spec):
     IMPL_ONLY = ("3401", "3402", "3403")
     pending_consts = []      # (case line, dump of the re-parsed definition, constants of its expansion): judged in extra_checks
 
+    def count_confusable(self, ctx):
+        """how many cases carry sibling names of one confusable family (CONFUSABLE*)"""
+        n3401 = n3413 = 0
+        for l in ctx["lines"]:
+            if l.startswith("3401 "):
+                d = desc_of_text(text_of_line(l))
+                if d is not None and module_has_confusable_pair(d):
+                    n3401 += 1
+            elif l.startswith("3413 0 "):
+                a = list(map(int, l.split()))[1:]
+                try:
+                    p = 2
+                    p += 1 if a[p] == 0 else 3
+                    q, names = p + 2, []
+                    for _ in range(a[p + 1]):
+                        names.append("".join(chr(c) for c in a[q + 1:q + 1 + a[q]]))
+                        q += 1 + a[q]
+                    if a[p] >= 0 and has_confusable_pair(names):
+                        n3413 += 1
+                except IndexError:
+                    pass
+        ctx.setdefault("coverage_extra", {})["confusable_sibling_names"] = {
+            "modules_op_3401": n3401, "extensible_headers_op_3413": n3413}
+
     def extra_checks(self, ctx):
         """op 3414: the constants Front/Descr.v computes for the re-parsed Rust model (its dump is part of the answer of
         op 3401) against the constants the harness extracted from the crate's expand() of the same definition.  A
@@ -1455,6 +1580,7 @@ class C08(Spec):
         import vlib
         outs = vlib.run_model(lines, timeout=self.timeout_per_chunk * 3, mem_gb=8)
         compared = 0
+        self.count_confusable(ctx)
         for (case, raw, cs), ml, mo in zip(pend, lines, outs):
             got = model_descriptor_consts(mo)
             if got[0] == "other" and mo.strip() == "-2":
